@@ -144,6 +144,27 @@ var Items = []Item{
 	{ID: "embedded-field", Decls: "type Eb%N% struct {\n\ta uint64\n}\n\ntype Eo%N% struct {\n\tEb%N%\n}", Core: "o := Eo%N%{}\n\tr = o.a + 1", NoCtx: true},
 	{ID: "multi-name-field", Decls: "type Mf%N% struct {\n\ta, b uint64\n}", Core: "o := Mf%N%{a: 1, b: 2}\n\tr = o.a + o.b", NoCtx: true},
 	{ID: "generic-struct", Decls: "type Gs%N%[T any] struct {\n\tv T\n}", Core: "o := Gs%N%[uint64]{v: 3}\n\tr = o.v", NoCtx: true},
+	// ---- package-level constants: untyped / typed × the width they are used at (seeded change C02-3) ----
+	{ID: "untyped-const-at-u64", Decls: "const Nu%N% = 10", Setup: "var x uint64 = 9", Core: "r = x + Nu%N%"},
+	{ID: "untyped-const-compare-u32", Decls: "const Nc%N% = 10", Setup: "var x uint32 = 9", Core: "if x+1 == Nc%N% {\n\t\tr = 1\n\t}"},
+	{ID: "untyped-const-arith-u32", Decls: "const Na%N% = 10", Setup: "var x uint32 = 9", Core: "r = uint64(x + Na%N%)"},
+	{ID: "untyped-const-arith-u8", Decls: "const Nb%N% = 200", Setup: "var x byte = 100", Core: "r = uint64(x + Nb%N%)"},
+	{ID: "untyped-const-assign-u32", Decls: "const Ns%N% = 70000", Setup: "var x uint32 = 1", Core: "x = Ns%N%\n\tr = uint64(x) + 1"},
+	{ID: "untyped-const-append-byte", Decls: "const Np%N% = 65", Setup: "var b []byte", Core: "b = append(b, Np%N%)\n\tr = uint64(b[0]) + uint64(len(b))"},
+	{ID: "untyped-const-conv-u32", Decls: "const Nv%N% = 10", Setup: "var x uint32 = 5", Core: "r = uint64(uint32(Nv%N%) + x)"},
+	{ID: "untyped-const-index", Decls: "const Ni%N% = 2", Setup: "s := make([]uint64, 4)\n\ts[2] = 7", Core: "r = s[Ni%N%]"},
+	{ID: "untyped-const-shift-count", Decls: "const Nh%N% = 3", Setup: "var x uint64 = 5", Core: "r = x << Nh%N%"},
+	{ID: "untyped-const-expr-decl", Decls: "const Ne%N% = 1 << 20", Setup: "var x uint64 = 1", Core: "r = x + Ne%N%"},
+	{ID: "untyped-const-of-const", Decls: "const Nq%N% = 10\n\nconst Nr%N% = Nq%N% + 1", Setup: "var x uint32 = 1", Core: "r = uint64(x + Nr%N%)"},
+	{ID: "untyped-const-bool", Decls: "const Bt%N% = true", Core: "if Bt%N% {\n\t\tr = 1\n\t}"},
+	{ID: "untyped-const-string", Decls: "const St%N% = \"ab\"", Setup: "t := \"c\"", Core: "u := St%N% + t\n\tr = uint64(len(u))", NoCtx: true},
+	{ID: "untyped-const-float", Decls: "const Fl%N% = 2.0", Setup: "var x uint64 = 3", Core: "r = x * Fl%N%"},
+	{ID: "untyped-const-rune", Decls: "const Ru%N% = 'a'", Setup: "var x uint64 = 3", Core: "r = x + Ru%N%"},
+	{ID: "typed-const-u32-widened", Decls: "const Tw%N% uint32 = 10", Setup: "var x uint64 = 3", Core: "r = x + uint64(Tw%N%)"},
+	{ID: "typed-const-u8-arith", Decls: "const Tb%N% byte = 200", Setup: "var x byte = 100", Core: "r = uint64(x + Tb%N%)"},
+	{ID: "typed-const-u64-narrowed", Decls: "const Tn%N% uint64 = 300", Setup: "var x uint32 = 3", Core: "r = uint64(x + uint32(Tn%N%))"},
+	{ID: "global-var", Decls: "var Gv%N% uint64 = 4", Core: "r = Gv%N% + 1"},
+	{ID: "global-var-untyped", Decls: "var Gu%N% = 4", Core: "r = uint64(Gu%N%) + 1"},
 	{ID: "iota-const", Decls: "const (\n\tIa%N% uint64 = iota\n\tIb%N%\n\tIc%N%\n)", Core: "r = Ic%N%"},
 	{ID: "int-type", Core: "var x int = 3\n\tr = uint64(x)", NoCtx: true},
 	{ID: "uint8-spelling", Setup: "a := uint64(300)", Core: "var x uint8 = uint8(a)\n\tr = uint64(x)", NoCtx: true},
